@@ -197,17 +197,22 @@ PROPS = {
         partial=["strings.Fields splits on Unicode white space; the model (and the generator) use ASCII white space"],
     ),
     "C18": dict(
-        modules=["Whawty.Props.C18"],
+        modules=["Whawty.Props.C18", "Whawty.Props.C18Reload"],
         suites=[("hdrv", "c18"), ("overlay", "v18")],
         level_text="loader_exact: the model of fromConfig accepts exactly the well-formed decoded configurations; accepted "
                    "argon2id / scrypt sets lie inside the primitives' domains (repaired constructor). Generated YAML "
                    "documents (mutations of valid ones) are loaded with store.NewDirFromConfig and compared with the "
-                   "model on the harness's own strict decoding; accepted sets are exercised (hash + verify) under recover.",
+                   "model on the harness's own strict decoding; accepted sets are exercised (hash + verify) under recover. Reload: "
+                   "store.reload is modelled on top of the dispatcher's transition system (all-or-nothing over whole runs, "
+                   "queues and waiting clients untouched) and every real SIGHUP scenario is compared with the model.",
         rule="Documents derived from valid ones by 0-3 mutations: field deletion, duplication, type change, unknown keys at "
              "three levels, numeric edge values (0,1,31,32,255,256,2^32-1,2^32,2^64-1,2^64,-1,1.5,strings,lists,maps), "
              "both/no algorithm, HMAC key variants, duplicate ids and top-level keys, default 0/missing/undefined.",
         trusted=["yaml.v3 (KnownFields) decides decodability: modelled as an interface", T_CRYPTO],
-        partial=["reload all-or-nothing is decided by the run (real SIGHUPs to a real agent in upgrade modes off / local / "
+        partial=["the reload step is a model of its own (Model/Reload.lean: the live configuration is replaced as a whole, only "
+                 "when the file loaded and its directory passed the check; reload_all_or_nothing, reload_no_mixture, "
+                 "live_is_initial_or_offered over whole runs, reload_preserves_requests, agent_component_reachable); that the "
+                 "real reload is this step is decided by the run (real SIGHUPs to a real agent in upgrade modes off / local / "
                  "remote, 12 kinds of new configuration, free-running clients in flight, and a staged phase in which the "
                  "dispatcher is held while an update, a login, a list and a failing update are queued and the signal arrives): the swap is a single pointer assignment in the code, which the model "
                  "does not add anything to",
